@@ -124,6 +124,7 @@ static struct mskwajd_header *kwajd_open(struct mskwaj_decompressor *base,
         self->error = err;
         return NULL;
     }
+    self->error = MSPACK_ERR_OK;
     return hdr;
 }
 
